@@ -121,3 +121,29 @@ Section AcceptSound.
     destruct (tx_verify_ok _ _ _ TV) as (_ & _ & _ & _ & T5). congruence.
   Qed.
 End AcceptSound.
+
+(* ---- the content / prefetch clause spelled out: a candidate that passes content() was presented with as many distinct
+        account blocks (by identifier) as its content has headers, and every header names one of them *)
+Lemma content_scan_named pre acct : forall hs heads, content_scan pre acct heads hs = VOk ->
+  Forall (fun h => exists b, lookup_pb pre (h_hash h) (h_height h) = Some b) hs.
+Proof.
+  induction hs as [|h r IH]; intros heads H; [constructor|].
+  cbn [content_scan] in H.
+  destruct (lookup_pb pre (h_hash h) (h_height h)) as [b|] eqn:L; [|discriminate].
+  constructor; [exists b; exact L|].
+  destruct (pb_batched b); [eapply IH; exact H|].
+  match type of H with (if ?c then _ else _) = _ => destruct c end; [eapply IH; exact H|discriminate].
+Qed.
+
+Theorem content_exact cx m : content_check cx m = VOk ->
+  Z.of_nat (length (mo_content m)) <= MaxAccountBlocksInMomentum /\
+  distinct_ids (cx_prefetched cx) [] = Z.of_nat (length (mo_content m)) /\
+  Forall (fun h => exists b, lookup_pb (cx_prefetched cx) (h_hash h) (h_height h) = Some b) (mo_content m) /\
+  content_scan (cx_prefetched cx) (cx_acct cx) [] (mo_content m) = VOk.
+Proof.
+  unfold content_check.
+  destruct (MaxAccountBlocksInMomentum <? Z.of_nat (length (mo_content m))) eqn:E1; [discriminate|].
+  destruct (negb (distinct_ids (cx_prefetched cx) [] =? Z.of_nat (length (mo_content m)))) eqn:E2; [discriminate|].
+  intros H. apply Z.ltb_ge in E1. apply negb_false_iff in E2. apply Z.eqb_eq in E2.
+  repeat split; auto. eapply content_scan_named; exact H.
+Qed.
